@@ -106,6 +106,21 @@ CHECKS = {
             "compared with Attributes::to_writer. All 256 rotation-id bytes, all BrickColor numbers and all 256 type-id bytes are enumerated.",
             "trusts: docs/attributes.md; rotation snapping within f32::EPSILON is accepted as in the binary format",
             "DESIGN.md 2/C14"),
+    "C15": ("exploration",
+            "bounded-exhaustive enumeration of the migration domain from the database, differential across four read/write paths with independently built legacy files",
+            "Every Migrate property of the database x inheriting classes x every legacy value (all Enum.Font items, all BrickColor numbers, both booleans, a URI pool) x {new property absent, "
+            "explicit value with either encounter order} goes through write-binary, write-XML, read-binary (legacy column from the reference encoder) and read-XML (legacy element from the reference "
+            "generator); every path must yield exactly the new property with the tabulated / migrated value, an explicit value must win, the legacy name must not survive. Enum.Font items without a "
+            "migration are open findings.",
+            "trusts: PropertyMigration::perform for the font table (agreement across paths is what is checked), BrickColor::to_color3uint8 as the database's colour table",
+            "DESIGN.md 2/C15"),
+    "C16": ("exploration",
+            "exhaustive walk over the bundled reflection database + per-class default round trips through both codecs + generated single-corruption self-test",
+            "All 797 classes / 3242 descriptors / 458 enums / 7231 defaults are walked for dangling superclass, alias, serializes-as, migration and enum links and for default type agreement; every "
+            "(class, property) is driven through both codecs (no panic, serialized name as predicted); an instance of every class populated with its defaults must survive both formats; "
+            "rbx_dom_lua/src/database.json must equal the msgpack database; random single corruptions of a cloned database must all be detected.",
+            "trusts: exhaustive only over the database compiled into the tree; a database regenerated from a newer dump cannot be produced offline",
+            "DESIGN.md 2/C16"),
     "C17": ("exploration",
             "property-based round-trip testing through 7 serde codecs and the text forms; exhaustive u16 / u8 sweeps; fixture replay of allValues.json",
             "Generated values of all 40 Variant variants go through serde_json (str, slice, reader, Value), bincode and rmp_serde (named, compact) and must come back bit-identical; Ref and "
